@@ -62,6 +62,9 @@ def generate(rng, tier):
         init = [[fb(r32(rng.uniform(-1, 1))) for _ in range(dim)] for _ in range(2)]
         cases.append({"f": "f32", "target": tg, "init": init, "eps": fb(r32(0.05)), "L": 1, "k": 2,
                       "seed": str(rng.getrandbits(64)), "indep_row": 0})
+    # one large batch (n_chains * dim >= 4096): the draw discipline and the step must not change with the batch size
+    cases.append({"f": "f32", "target": {"kind": "diag", "lam": [fb(1.0)] * 16}, "init": [[fb(r32(rng.uniform(-1, 1))) for _ in range(16)] for _ in range(280)],
+                  "eps": fb(r32(0.05)), "L": 1, "k": 1, "seed": str(rng.getrandbits(64)), "indep_row": 5})
     while len(cases) < n_cases:
         f = rng.choice(["f32", "f32", "f64"])
         tg, dim = gen_target(rng, f)
@@ -275,8 +278,15 @@ def oracle(case, out):
         return "HMC step panicked: " + out["panic"]
     L = case["L"]
     eps = bf(case["eps"])
+    ev = out.get("draw_events")
     for si, st in enumerate(out["steps"]):
         n, d = st["n_chains"], st["dim"]
+        if ev is not None:
+            base = si * (n * d + n)
+            if st["momenta"] != ev[base:base + n * d] or st["uniform"] != ev[base + n * d:base + n * d + n]:
+                return ("seed %s, step %d (%d chains x %d dims): the momenta / acceptance uniforms of the step are not draws %d..%d of the "
+                        "sampler's own seeded generator (n*d standard normals, row-major, then n uniforms per step)" % (
+                            case["seed"], si, n, d, base, base + n * d + n - 1))
         for r in range(n):
             sl = slice(r * d, (r + 1) * d)
             acc = bf(st["accept_logp"][r])
